@@ -210,7 +210,7 @@ func before(a, b ssa.Instruction) bool {
 	if a.Block() == b.Block() {
 		return instrIndex(a) < instrIndex(b)
 	}
-	return a.Block().Dominates(b.Block())
+	return domOf(a.Parent()).dominates(a.Block(), b.Block())
 }
 
 // threeWayRule: whoever stores a pair also indexes its contract and all of its denominations under the pair's id.
